@@ -44,9 +44,10 @@ def step (c : Cfg) (s : St) : Ev → Option St
       some { s with acquired := k + 1, stamp := fun x => if x = k % c.slots then some k else s.stamp x }
     else none
   | .send =>
-    if s.acquired = s.sent + 1 ∧ queued s < c.cap then some { s with sent := s.sent + 1 } else none
+    if s.acquired = s.sent + 1 ∧ !s.termSent ∧ queued s < c.cap then some { s with sent := s.sent + 1 } else none
   | .term =>
-    if s.acquired = s.sent ∧ !s.termSent ∧ queued s < c.cap then some { s with termSent := true } else none
+    -- after the last buffer, or on a stage-1 error with the buffer being filled abandoned (`break`, then the terminator)
+    if !s.termSent ∧ queued s < c.cap then some { s with termSent := true } else none
   | .release =>
     if s.released = s.recvd ∧ !s.termRecv then some { s with released := s.released + 1 } else none
   | .recv =>
